@@ -34,6 +34,8 @@ type Expr struct {
 	// Spell (num only): the literal as written in the SQL text when it is not the canonical decimal print of Num
 	// (zero-padded, exponent form, trailing .0). Observe verifies that it denotes Num.
 	Spell string `json:"spell,omitempty"`
+	// Qualified (col, path ["<-", name]): written as the qualified name `<-`.name instead of the single quoted name `<-.name`
+	Qualified bool `json:"qualified,omitempty"`
 }
 
 type Item struct {
@@ -146,6 +148,9 @@ func sqlNum(f float64) string { return strconv.FormatFloat(f, 'f', -1, 64) }
 func (e *Expr) SQL() string {
 	switch e.K {
 	case "col":
+		if e.Qualified && len(e.Path) == 2 && e.Path[0] == "<-" && plainIdent(e.Path[1]) {
+			return "`<-`." + e.Path[1]
+		}
 		return sqlPath(e.Path)
 	case "num":
 		if e.Spell != "" {
@@ -290,6 +295,9 @@ func (s *Stmt) SQL() string {
 		branch := func(b *Stmt) string {
 			if !b.Union && len(b.With) > 0 {
 				return "(" + b.SQL() + ")" // a branch with its own WITH clause must be parenthesised
+			}
+			if b.Union && b.Limit != nil {
+				return "(" + b.SQL() + ")" // a union operand with its own LIMIT / OFFSET
 			}
 			return b.SQL()
 		}
